@@ -96,7 +96,9 @@ fn classify(name: &str) -> NameClass {
 
 /// characters random names are spelled from: identifier characters, near misses, and the
 /// first-character classes that differ between "may start" and "may continue" an identifier
-const PALETTE: [char; 30] = [
+const PALETTE: [char; 34] = [
+    // "other number" characters: alphanumeric for `char`, but no identifier characters
+    '\u{b2}', '\u{bd}', '\u{2460}', '\u{94d}',
     'a', 'b', 'Z', '_', '_', '1', '9', 'x', 'q', '0', ' ', '-', '.', '(', '\t', '\u{e9}', '\u{540d}', '\u{301}', '\u{b7}',
     '\u{203f}', '\u{2163}', '\u{3007}', '\u{200d}', '\u{1F600}', '\u{a0}', '\u{2013}', '$', '\'', 'k', 'e',
 ];
